@@ -64,7 +64,20 @@ UNKNOWN_SCOPE = {
     "C12_ExplicitStep": ["dt_explicit", "in_explicit", "rhs_explicit", "r_explicit"],
     "C12_ExplicitBCs": ["r_explicit"], "C12_InputUntouched": ["flags"],
     "C12_ExplicitUsable": ["flags", "r_after_explicit"], "C03_SolvedRobin": ["r_solve"],
+    "C07_Premise": ["divu"], "C07_SignStructure": ["Mdiff", "Mup", "Msrc"], "C07_Hull": ["steps"],
+    "C06_Steady": ["steady"],
+    "C01_ClosedStepCentral": ["integrals"], "C01_ClosedStepUpwind": ["integrals"], "C01_ClosedStepExplicit": ["integrals"],
+    "C08_Geometry": ["none"], "C08_Diffusion": ["Mdiff", "B.Mdiff"], "C08_Central": ["Mconv", "B.Mconv"],
+    "C08_Upwind": ["Mup", "B.Mup"], "C08_Ghost": ["ghost", "B.ghost"], "C08_Tvd": ["tvdnamed", "B.tvdnamed"],
+    "C08_Solve": ["r_solve", "B.r_solve"],
+    "C17_solution": ["r_solve", "S.r_solve"], "C17_Decades": ["decades"],
+    "C17_LinearDiff": ["Mdiff", "Lin.Mdiff2", "Lin.Mdiff12"], "C17_LinearConv": ["Mconv", "Lin.Mconv2", "Lin.Mconv12"],
+    "C17_LinearUp": ["Mupalt", "Lin.Mup2", "Lin.Mup12"], "C17_LinearSrc": ["Msrc", "Lin.Msrc2", "Lin.Msrc12"],
+    "C17_tvd": ["tvdnamed", "S.tvdnamed"],
 }
+for _o in ("Mdiff", "Mconv", "Mup", "Mupalt", "Msrc", "Rsrc", "Mbc", "Rbc", "ghost", "divu", "volume", "linmean",
+           "upmean", "grad"):
+    UNKNOWN_SCOPE["C17_" + _o] = [_o, "S." + _o]
 # ... except where the output is compared, entry by entry, with an exact small-rational TARGET of the
 # configuration (x* is integer-valued): a finite value that is not within the lifting tolerance of ANY small
 # rational is in particular different from the target, so the clause is decided: failing
@@ -72,6 +85,7 @@ TARGETED = {
     "C04_Solves": ["r_solve"], "C04_Variants": ["r_variants"], "C12_History": ["r_history"],
     "C12_HistoryPeriodic": ["r_history_per"], "C12_FixedPoint": ["r_fixed"],
     "C12_ExplicitUsable": ["r_after_explicit"], "C04_ExternalSolver": ["r_ext"],
+    "C07_Premise": ["divu"], "C06_Steady": ["steady"],
 }
 
 
@@ -138,7 +152,14 @@ def outputs_with_unknown(obs):
         if isinstance(x, dict):
             return any(has(v) for v in x.values())
         return False
-    return {k for k, v in obs.items() if k != "meshindex" and has(v)}
+    out = set()
+    for k, v in obs.items():
+        if k == "meshindex" or not has(v):
+            continue
+        out.add(k)
+        if isinstance(v, dict):          # one level of nesting: "S.Mdiff", "B.Mup", "Lin.Mdiff2", ...
+            out |= {f"{k}.{k2}" for k2, v2 in v.items() if has(v2)}
+    return out
 
 
 def replay_clauses(prop, cfg):
